@@ -107,6 +107,12 @@ type treeConc struct {
 	used      map[string]bool
 	recvCount map[string]int
 	opaque    bool
+	// localFrom: allocations with an index >= localFrom were made by the thread
+	// being extracted itself (-1 for the root, whose objects every thread it
+	// starts can see); lockedLocal tracks its private mutexes
+	localFrom   int
+	lockedLocal map[*value]bool
+	isChild     bool
 }
 
 func (t *treeConc) pos(fr *frame) string {
@@ -398,7 +404,65 @@ func (t *treeConc) syncObj(kind string, obj *value, hint string) string {
 	return t.nameOf(kind, obj, hint, func(n string) *ObjInfo { return &ObjInfo{Name: n, Kind: kind, Width: 8} })
 }
 
+// isLocal reports whether the object at p lives in memory the thread being
+// extracted allocated itself and cannot have handed to anybody (it has not
+// started a goroutine): no other thread can operate on it, and two instances of
+// the thread each have their own, so it must not become a named shared object.
+func (t *treeConc) isLocal(p *value) bool {
+	if t.localFrom < 0 || len(t.spawns) > 0 || p == nil {
+		return false
+	}
+	var inside func(cell *value, depth int) bool
+	inside = func(cell *value, depth int) bool {
+		if cell == p {
+			return true
+		}
+		if depth > 4 {
+			return false
+		}
+		switch v := (*cell).(type) {
+		case structure:
+			for k := range v {
+				if inside(&v[k], depth+1) {
+					return true
+				}
+			}
+		case array:
+			if len(v) <= 16 {
+				for k := range v {
+					if inside(&v[k], depth+1) {
+						return true
+					}
+				}
+			}
+		}
+		return false
+	}
+	for idx := t.localFrom; idx < len(t.i.allocs); idx++ {
+		if inside(t.i.allocs[idx], 0) {
+			return true
+		}
+	}
+	return false
+}
+
 func (t *treeConc) syncOp(fr *frame, op string, obj *value, args []value) value {
+	if t.isLocal(obj) {
+		switch op {
+		case "Mutex.Lock", "RWMutex.Lock":
+			if t.lockedLocal[obj] {
+				deadlock("goroutine locks its own private mutex twice")
+			}
+			t.lockedLocal[obj] = true
+			return nil
+		case "Mutex.Unlock", "RWMutex.Unlock":
+			if !t.lockedLocal[obj] {
+				panic(targetPanic{"sync: unlock of unlocked mutex"})
+			}
+			delete(t.lockedLocal, obj)
+			return nil
+		}
+	}
 	switch op {
 	case "Mutex.Lock", "RWMutex.Lock":
 		t.emit(Event{Kind: "lock", Obj: t.syncObj("mutex", obj, ""), Pos: t.pos(fr)})
@@ -656,6 +720,11 @@ type TreeCfg struct {
 func (eng *Engine) runThread(i *interpreter, tc *treeConc, fn value, args []value) (p *ThreadPath, aborted *abortPath) {
 	tc.path = &ThreadPath{}
 	tc.recvCount = map[string]int{}
+	tc.localFrom = -1
+	if fn != nil && !i.ex.muted && tc.isChild {
+		tc.localFrom = len(i.allocs)
+	}
+	tc.lockedLocal = map[*value]bool{}
 	if tc.discover || len(tc.auto) > 0 {
 		tc.indexPre()
 	}
@@ -760,6 +829,7 @@ func (eng *Engine) ExtractTrees(cfg HarnessCfg) (*TreeResult, error) {
 			var rootVector []dec
 			for ci := 0; ci <= len(tmpl.chain); ci++ {
 				tc.spawns = nil
+				tc.isChild = ci > 0
 				ex.muted = ci < len(tmpl.chain)
 				start := len(ex.trail)
 				path, ab = eng.runThread(i, tc, fn, args)
